@@ -225,6 +225,7 @@ pub fn cut_unit(ctx: &Ctx, rng: &mut Rng, o: &mut Out) {
     let tid = format!("T{si}");
     let ids = register_tree(o, &tid, src, &root);
     let deep = src.name.starts_with("deep/");
+    let all_count = if deep { usize::MAX } else { root.dfs().count() };
     let max_len = if deep { 100_000 } else { 400 };
     let nodes: Vec<N> = if deep {
       // only the tall ones: the first few nodes in document order (the sources are well-formed;
@@ -321,6 +322,22 @@ pub fn cut_unit(ctx: &Ctx, rng: &mut Rng, o: &mut Out) {
           }
         }
       }
+      // the SEARCH reports it too: `find_all` from the root yields a match on exactly this node
+      // (also when an enclosing node that starts at the same byte matched first), and `find` from
+      // the node itself returns it
+      if !deep && k % 5 == 2 && all_count <= 3000 {
+        oracle_cases += 1;
+        let found = root.find_all(&pat).any(|m| m.get_node().node_id() == n.node_id());
+        let own = n.find(&pat).map(|m| m.get_node().node_id() == n.node_id()).unwrap_or(false);
+        if !found || !own {
+          o.oracle(
+            "cut-matches",
+            false,
+            json!({"fp": format!("cut-matches search: find_all from the root / find from the node does not report the node (find_all={found} find={own})"),
+                   "lang": src.lang.to_string(), "file": src.name, "node_range": [n.range().start, n.range().end], "pattern": text}),
+          );
+        }
+      }
       for (sname, mk) in STRICT {
         let p = pat.clone().with_strictness(mk());
         let r = run_match(&p, n, &ids);
@@ -360,8 +377,60 @@ fn struct_identical(a: &N, b: &N) -> bool {
 }
 
 /// C03: near misses — patterns cut from one node, tried on other nodes of the same file
+/// The matcher combinators of the library (`Op::every(..).and(..)`, `Op::either(..).or(..)`, `Op::not`,
+/// `Op::all`, `Op::any`) through the search entry points: `find` = the first of the per-node matches,
+/// `find_all` = all of them, `replace` edits the first one — whatever a candidate that was tried and
+/// rejected bound on the way.
+pub fn ops_search(o: &mut Out) {
+  use ast_grep_core::matcher::MatcherExt;
+  use ast_grep_core::ops::Op;
+  let cases: [(SupportLang, &str, &str, &str); 6] = [
+    (SupportLang::JavaScript, "x = 1; y = 2; z = 3;", "$A = $B", "x = $_"),
+    (SupportLang::JavaScript, "f(1); g(2); f(g(3));", "$F($A)", "f($$$)"),
+    (SupportLang::Python, "x = 1\ny = 2\nx = 3\n", "$A = $B", "x = $_"),
+    (SupportLang::Rust, "fn m() { a(1); b(2); a(b(3)); }", "$F($A)", "a($$$)"),
+    (SupportLang::Go, "package p\nfunc m() { a(1); b(2) }\n", "$F($A)", "a($$$)"),
+    (SupportLang::TypeScript, "let p = q; let r = s; let p2 = t;", "let $A = $B", "let p = $_"),
+  ];
+  let mut n_cases = 0usize;
+  for (lang, src, p1, p2) in cases {
+    let grep = lang.ast_grep(src);
+    let root = grep.root();
+    let all: Vec<N> = root.dfs().collect();
+    let (Ok(a), Ok(b)) = (Pattern::try_new(p1, lang), Pattern::try_new(p2, lang)) else { continue };
+    macro_rules! check {
+      ($name:expr, $m:expr) => {{
+        let m = $m;
+        n_cases += 1;
+        let show = |nm: &ast_grep_core::NodeMatch<StrDoc<SupportLang>>| -> Value {
+          let env: std::collections::BTreeMap<String, String> = std::collections::HashMap::<String, String>::from(nm.get_env().clone()).into_iter().collect();
+          json!([nm.range().start, nm.range().end, env])
+        };
+        let per_node: Vec<Value> = all.iter().filter_map(|n| m.match_node(n.clone())).map(|nm| show(&nm)).collect();
+        let found_all: Vec<Value> = root.find_all(&m).map(|nm| show(&nm)).collect();
+        let found: Value = root.find(&m).map(|nm| show(&nm)).unwrap_or(Value::Null);
+        let replaced: Value = root.replace(&m, "R").map(|e| json!([e.position, e.position + e.deleted_length])).unwrap_or(Value::Null);
+        let first = per_node.first().cloned().unwrap_or(Value::Null);
+        let first_range = if first.is_null() { Value::Null } else { json!([first[0], first[1]]) };
+        if found_all != per_node || found != first || replaced != first_range {
+          o.oracle("ops-search", false, json!({"fp": format!("ops-search {}: find / find_all / replace differ from per-node matching", $name),
+            "lang": lang.to_string(), "src": src, "p1": p1, "p2": p2, "per_node": per_node, "find_all": found_all, "find": found, "replace": replaced}));
+        }
+      }};
+    }
+    check!("every(p1).and(not p2)", Op::every(a.clone()).and(Op::not(b.clone())));
+    check!("every(p1).and(p2)", Op::every(a.clone()).and(b.clone()));
+    check!("either(p2).or(p1)", Op::either(b.clone()).or(a.clone()));
+    check!("all[p1, p2]", Op::all([a.clone(), b.clone()]));
+    check!("any[p2, p1]", Op::any([b.clone(), a.clone()]));
+    check!("not(p2) and p1", Op::every(Op::not(b.clone())).and(a.clone()));
+  }
+  o.oracle("ops-search", true, json!({"cases": n_cases}));
+}
+
 pub fn near_miss_unit(ctx: &Ctx, rng: &mut Rng, o: &mut Out) {
   yaml_strictness(o);
+  ops_search(o);
   let sources = corpus::load();
   let variants = if ctx.thorough { 6 } else { 2 };
   let pats_per_src = if ctx.thorough { 60 } else { 30 };
